@@ -648,6 +648,9 @@ class Tuner(Client):
                      "role": w.meta["p"][src].get("role", "phi")}
                 if p.has_bounds() and p.min_bound is not None and p.max_bound is not None:
                     o["bounds"] = [p.min_bound, p.max_bound]
+                    if w.meta["p"][src].get("bounds_obj") is not None and r.random() < 0.5 \
+                            and list(w.meta["p"][src]["bounds_obj"]) == o["bounds"]:
+                        o["bounds_from"] = src   # same list object, reused
                 if p.label is not None:
                     o["label"] = p.label
                 return o
